@@ -4,7 +4,7 @@ use crate::build;
 use crate::daemon::{Daemon, HookCollector, ProcState};
 use crate::engine::*;
 use crate::gen;
-use crate::mockca::{CaPlan, Eab, MockCa, Pos};
+use crate::mockca::{Action, Fault, CaPlan, Eab, MockCa, Pos};
 use crate::oracle::jwk;
 use crate::probe::{hex, Probe};
 use proptest::prelude::*;
@@ -22,6 +22,9 @@ pub enum Step {
 	Restart,
 	Renew(usize),
 	Forget(usize),
+	/// the CA of endpoint i answers its next request at this position (new-account | account-update | key-change | new-order) with a
+	/// 503 that is not a problem document: the attempt that meets it fails and is repeated
+	Fault(usize, String),
 }
 
 #[derive(Clone, Debug, Serialize, Deserialize)]
@@ -49,6 +52,7 @@ fn bb_strategy() -> impl Strategy<Value = BbCase> {
 			1 => Just(Step::Restart),
 			5 => (0..n).prop_map(Step::Renew),
 			1 => (0..n).prop_map(Step::Forget),
+			1 => ((0..n), proptest::sample::select(vec!["new-account", "account-update", "key-change", "new-order"])).prop_map(|(e, w)| Step::Fault(e, w.to_string())),
 		];
 		let k0 = key0.clone();
 		let free = proptest::collection::vec(step.clone(), 1..=5).prop_map(move |mut steps| {
@@ -63,7 +67,8 @@ fn bb_strategy() -> impl Strategy<Value = BbCase> {
 		// then every endpoint renewed once in a random order
 		let k1 = key0.clone();
 		let edit = prop_oneof![2 => contacts().prop_map(Step::EditContacts), 3 => fast_key().prop_map(Step::ChangeKey), 1 => (contacts(), fast_key()).prop_map(|(c, k)| Step::ChangeBoth(c, k)), 1 => Just(Step::ToggleBinding)];
-		let shaped = (proptest::collection::vec(edit, 1..=2), proptest::option::weighted(0.5, 0..n), any::<u64>(), any::<bool>()).prop_map(move |(edits, forget, perm, restart)| {
+		let fault = proptest::option::weighted(0.4, ((0..n), proptest::sample::select(vec!["account-update", "key-change", "new-order"])));
+		let shaped = (proptest::collection::vec(edit, 1..=2), proptest::option::weighted(0.5, 0..n), any::<u64>(), any::<bool>(), fault).prop_map(move |(edits, forget, perm, restart, fault)| {
 			let mut steps: Vec<Step> = (0..n).map(Step::Renew).collect();
 			steps.extend(edits);
 			if restart {
@@ -71,6 +76,9 @@ fn bb_strategy() -> impl Strategy<Value = BbCase> {
 			}
 			if let Some(e) = forget {
 				steps.push(Step::Forget(e));
+			}
+			if let Some((e, w)) = fault {
+				steps.push(Step::Fault(e, w.to_string()));
 			}
 			let mut order: Vec<usize> = (0..n).collect();
 			let mut x = perm | 1;
@@ -153,10 +161,13 @@ fn exec_bb_in(case: &BbCase, acmed: &std::path::Path, dir: &std::path::Path) -> 
 	let mut eps: Vec<EpModel> = (0..n).map(|_| EpModel { registered: false, key_version: 0, contacts: vec![], binding: false, forgotten: false }).collect();
 	let mut log_marks: Vec<usize> = vec![0; n];
 	let mut posts_seen = 0usize;
+	let mut failed_seen = 0usize;
 	let mut classes: Vec<String> = vec![format!("endpoints={n}")];
 	let mut n_edits = 0;
 	let mut key_change_seen = false;
 	let mut sync_steps: std::collections::BTreeSet<usize> = Default::default();
+	let mut faults_armed = 0usize;
+	let post_ok = |r: &crate::daemon::HookRecord| bb::is_post(r) && r.arg("is_success") == Some("true");
 
 	let write_cfg = |contacts: &[String], key: &str, binding: bool| {
 		let mut acct = json!({"name": "a1", "key_type": key, "contacts": contacts.iter().map(|c| json!({"mailto": c})).collect::<Vec<_>>(), "env": {bb::ACCT_ENV: "a1"}});
@@ -205,6 +216,19 @@ fn exec_bb_in(case: &BbCase, acmed: &std::path::Path, dir: &std::path::Path) -> 
 					eps[*e].forgotten = true;
 					classes.push("ca-forgot".into());
 				}
+				continue;
+			}
+			Step::Fault(e, which) => {
+				let pos = match which.as_str() {
+					"new-account" => Pos::NewAccount,
+					"account-update" => Pos::AccountUpdate,
+					"key-change" => Pos::KeyChange,
+					_ => Pos::NewOrder,
+				};
+				let nth = cas[*e].snapshot().log.iter().filter(|l| l.pos == pos).count() + 1;
+				cas[*e].set_plan(&|p| p.faults.push(Fault { pos: pos.clone(), nth, repeat: 1, action: Action::NonJson(503), cert: None }));
+				faults_armed += 1;
+				classes.push(format!("fault-at-{which}"));
 				continue;
 			}
 			Step::Restart | Step::Renew(_) => {}
@@ -268,14 +292,25 @@ fn exec_bb_in(case: &BbCase, acmed: &std::path::Path, dir: &std::path::Path) -> 
 			classes.push("plain-restart".into());
 			continue;
 		}
+		// a successful post-operation ends a certificate's part of the run (held); a failed attempt is let through and repeated at once.
+		// Without an armed fault nothing may fail.
 		let want = posts_seen + run_targets.len();
-		coll.hold_when(Box::new(|r, _| bb::is_post(r)));
-		let ok = coll.wait_until(&|r| r.iter().filter(|x| bb::is_post(x)).count() >= want, Duration::from_secs(90), &mut || daemon.state() != ProcState::Alive);
+		if faults_armed > 0 {
+			coll.hold_when(Box::new(move |r, _| post_ok(r)));
+		} else {
+			coll.hold_when(Box::new(|r, _| bb::is_post(r)));
+		}
+		let ok = coll.wait_until(&|r| r.iter().filter(|x| if faults_armed > 0 { post_ok(x) } else { bb::is_post(x) }).count() >= want + if faults_armed > 0 { 0 } else { failed_seen }, Duration::from_secs(90), &mut || daemon.state() != ProcState::Alive);
 		let run = bb::finish_run(&coll, daemon, if ok { bb::WaitEnd::Reached } else { bb::WaitEnd::Timeout });
 		if !ok {
-			return Outcome::fail("C11:renewal-incomplete", format!("{} of {} renewals finished; {}\n{}", run.records.iter().filter(|x| bb::is_post(x)).count() - posts_seen, run_targets.len(), d(), run.stderr_tail));
+			return Outcome::fail("C11:renewal-incomplete", format!("{} of {} renewals finished; {}\n{}", run.records.iter().filter(|x| post_ok(x)).count().saturating_sub(posts_seen), run_targets.len(), d(), run.stderr_tail));
 		}
 		posts_seen = want;
+		failed_seen = run.records.iter().filter(|x| bb::is_post(x) && !post_ok(x)).count();
+		if failed_seen > faults_armed {
+			let r = run.records.iter().rev().find(|x| bb::is_post(x) && !post_ok(x)).unwrap();
+			return Outcome::fail("C11:renewal-failed", format!("{}: {:?} ({failed_seen} failed attempts so far, {faults_armed} injected faults); {}\n{}", r.hook_id, r.arg("status"), d(), run.stderr_tail));
+		}
 		for e in 0..n {
 			let snap = cas[e].snapshot();
 			let new_log: Vec<_> = snap.log.iter().skip(log_marks[e]).collect();
@@ -366,6 +401,9 @@ pub struct Shape {
 	pub endpoints: Vec<(String, String, String)>,
 	pub binding: Option<(String, Vec<u8>, String)>,
 	pub truncations: bool,
+	/// between save and load the account file is moved to another directory and a symbolic link is left at its place
+	#[serde(default)]
+	pub linked: bool,
 }
 
 fn shape_strategy(trunc_ratio: u32) -> impl Strategy<Value = Shape> {
@@ -390,6 +428,7 @@ fn shape_strategy(trunc_ratio: u32) -> impl Strategy<Value = Shape> {
 				endpoints: endpoints.into_iter().filter(|e| seen.insert(e.0.clone())).collect(),
 				binding: binding.map(|(k, b, a)| (k, b, a.to_string())),
 				truncations: t < trunc_ratio,
+				linked: t % 5 == 3,
 			}
 		})
 }
@@ -443,6 +482,14 @@ fn exec_shape(s: &Shape) -> Outcome {
 			return Outcome::fail("C11:account-file-missing", format!("{}: {e}", path.display()));
 		}
 	};
+	if s.linked {
+		// storage moved to another volume, a link left behind: still the same account
+		let moved = dir.join("moved-accounts");
+		let _ = std::fs::create_dir_all(&moved);
+		let real = moved.join("account.bin");
+		let _ = std::fs::rename(&path, &real);
+		let _ = std::os::unix::fs::symlink(&real, &path);
+	}
 	// a fresh process loads what the first one saved
 	let mut p2 = match Probe::spawn(&acmed) {
 		Ok(p) => p,
@@ -476,7 +523,7 @@ fn exec_shape(s: &Shape) -> Outcome {
 		bb::cleanup(&dir);
 		return Outcome::fail("C11:load-modified-file", "loading an unchanged configuration rewrote the account file".to_string());
 	}
-	let mut classes = vec![format!("key={}", s.key_type), format!("past_keys={}", s.past_keys.len()), format!("endpoints={}", s.endpoints.len()), format!("binding={}", s.binding.is_some())];
+	let mut classes = vec![format!("key={}", s.key_type), format!("past_keys={}", s.past_keys.len()), format!("endpoints={}", s.endpoints.len()), format!("binding={}", s.binding.is_some()), format!("file-behind-link={}", s.linked)];
 	// every truncation point: the daemon must refuse, and leave the file alone
 	if s.truncations {
 		classes.push("all-truncation-points".into());
@@ -575,7 +622,7 @@ fn exec_start(c: &StartCase) -> Outcome {
 }
 
 pub fn run(ctx: &Ctx, rep: &mut Report) {
-	rep.rule = "bb: histories of up to 9 steps (free-form, or scenario-shaped: all endpoints registered, 1..2 edits, optional restart and forgotten account, then every endpoint renewed in a random order) over one account on 1..3 endpoints (one mock CA each): edit contacts | change key type | change both | add/remove external binding | plain restart | renew on endpoint i (its certificate file is removed, the others stay valid) | CA forgets the account; an account model in the harness predicts, per endpoint, the number of newAccount / key-change / contact-update requests of each renewal, that idle endpoints receive nothing, and that afterwards the CA's record (contacts, key type) equals the configuration; the strict CA verifies that roll-overs are authorised by the key it holds. pr: account shapes (7 key types, 0..3 superseded keys, 0..3 endpoints with URLs and fingerprints, binding, Unicode names) saved by one process and loaded by a fresh one: dumps equal field by field (keys by SPKI and private DER); for a share of the shapes EVERY truncation point of the file must be refused and leave the file untouched. start: the real daemon started on a truncated account file must exit non-zero with a message, register nothing and not touch the file. Non-trivial (bb) = >= 2 edits with a key roll-over, or >= 2 endpoints synchronised at different steps; (pr) superseded keys or >= 2 endpoints.".into();
+	rep.rule = "bb: histories of up to 9 steps (free-form, or scenario-shaped: all endpoints registered, 1..2 edits, optional restart and forgotten account, then every endpoint renewed in a random order) over one account on 1..3 endpoints (one mock CA each): edit contacts | change key type | change both | add/remove external binding | plain restart | renew on endpoint i (its certificate file is removed, the others stay valid) | CA forgets the account | the CA answers its next newAccount / account update / key-change / newOrder with a 503 (the attempt fails and is repeated at once; the predicted requests must still all happen); an account model in the harness predicts, per endpoint, the number of newAccount / key-change / contact-update requests of each renewal, that idle endpoints receive nothing, and that afterwards the CA's record (contacts, key type) equals the configuration; the strict CA verifies that roll-overs are authorised by the key it holds. pr: account shapes (7 key types, 0..3 superseded keys, 0..3 endpoints with URLs and fingerprints, binding, Unicode names) saved by one process and loaded by a fresh one (for one shape in five the file is moved in between and a symbolic link left at its place): dumps equal field by field (keys by SPKI and private DER); for a share of the shapes EVERY truncation point of the file must be refused and leave the file untouched. start: the real daemon started on a truncated account file must exit non-zero with a message, register nothing and not touch the file. Non-trivial (bb) = >= 2 edits with a key roll-over, or >= 2 endpoints synchronised at different steps; (pr) superseded keys or >= 2 endpoints.".into();
 	run_replays::<BbCase>(ctx, rep, "bb", &exec_bb);
 	run_replays::<Shape>(ctx, rep, "shape", &exec_shape);
 	run_replays::<StartCase>(ctx, rep, "start", &exec_start);
